@@ -8,6 +8,14 @@ struct Counting {
     next: usize,
     n: usize,
     pulled: Arc<AtomicUsize>,
+    dropped: Arc<AtomicUsize>,
+}
+
+impl Drop for Counting {
+    fn drop(&mut self) {
+        // the upstream is dropped when the last background thread that owns it exits
+        self.dropped.store(1, Ordering::SeqCst);
+    }
 }
 
 impl Iterator for Counting {
@@ -38,7 +46,8 @@ pub fn dispatch(op: &str, req: &Value) -> Result<Value, String> {
             let panic_at = req["panic_at"].as_i64().unwrap_or(-1);
             let pulled = Arc::new(AtomicUsize::new(0));
             let processed = Arc::new(Mutex::new(vec![0usize; n.min(64)]));
-            let src = Counting { next: 0, n, pulled: pulled.clone() };
+            let dropped = Arc::new(AtomicUsize::new(0));
+            let src = Counting { next: 0, n, pulled: pulled.clone(), dropped: dropped.clone() };
             let mut outputs: Vec<usize> = vec![];
             let mut ended = false;
             let proc2 = processed.clone();
@@ -87,7 +96,7 @@ pub fn dispatch(op: &str, req: &Value) -> Result<Value, String> {
             let pulled_end = pulled.load(Ordering::SeqCst);
             let p = processed.lock().map(|p| p.clone()).unwrap_or_default();
             Ok(json!({"outputs": outputs, "ended": ended, "pulled_at_action": pulled_at_action, "pulled_end": pulled_end,
-                      "processed": p}))
+                      "processed": p, "upstream_dropped": dropped.load(Ordering::SeqCst) == 1}))
         }
         _ => crate::ops13::dispatch(op, req),
     }
